@@ -173,6 +173,7 @@ def run(ctx):
         fin = S.norm(blk["expr"], e2) if blk.get("expr") is not None else None
         return lets, fin
 
+    RAW_TERMS = {}
     want_idx_tpl = lambda LEN: ("if", ("bin", "Lt", "RAW", ("lit", "0")), ("cast", "usize", ("bin", "Add", ("cast", "i64", LEN), "RAW")), ("cast", "usize", "RAW"))
     for kind, LENF, ACCESS in (("List", lambda c: ("call", "len", c), "get"), ("String", lambda c: ("call", "count", ("call", "chars", c)), "nth")):
         a = sub.get(kind)
@@ -183,6 +184,10 @@ def run(ctx):
         # raw_index: `idx.as_number()? as i64`
         raws = [n for n in H.walk(blk) if H.kind(n) == "Let" and H.kind(n.get("pat")) == "Bind" and n.get("init") is not None and H.kind(n["init"]) == "Cast" and n["pat"].get("ty") == "i64"]
         ok_raw = True if (len(raws) >= 1 and S.contains_head(S.norm(raws[0]["init"], S.Env()), "try")) else None
+        if raws:
+            RAW_TERMS[kind] = S.norm(raws[0]["init"], S.Env())
+            if any(S.contains_call(RAW_TERMS[kind], nm_) for nm_ in ("floor", "ceil", "round", "abs", "trunc_", "rem_euclid")):
+                ok_raw = False   # the index is the number truncated toward zero, the same for lists and strings
         # negative branch: adjusted = LEN as i64 + raw; if adjusted < 0 -> null   (possibly inside a shared helper, which hir_fn shows inlined)
         lt0 = lambda n: H.kind(n) == "If" and H.kind(H.strip(n["cond"])) == "Binary" and H.strip(n["cond"])["op"] == "Lt" and H.lit(H.strip(n["cond"])["r"]) and H.lit(H.strip(n["cond"])["r"])["v"] == "0"
         ifs = [n for n in H.walk(blk) if lt0(n)]
@@ -219,6 +224,11 @@ def run(ctx):
         acc_ok = True if (tf[0] == "call" and tf[1] == "unwrap_or" and tf[-1] == ("path", CORE + "values::Value::Null") and S.contains_call(tf, ACCESS)) else None
         ctx.inst("C14.R3", "Access#%s" % kind, S.both(ok_raw, ok_neg, len_ok, null_ok, acc_ok),
                  "raw index truncated to i64: %s; negative adds the %s length: %s; still negative -> null: %s; element via .%s(..).unwrap_or(Null): %s (None = shape not recognised)" % (ok_raw, "character" if kind == "String" else "element", len_ok, null_ok, ACCESS, acc_ok), H.loc(a["body"]))
+    if "List" in RAW_TERMS and "String" in RAW_TERMS:
+        same_ = RAW_TERMS["List"] == RAW_TERMS["String"]
+        ctx.inst("C14.R3", "Access#raw-index-agreement", same_, "list index: %s; string index: %s (`[...s][i]` and `s[i]` must pick the same position)" % (S.show(RAW_TERMS["List"]), S.show(RAW_TERMS["String"])), H.loc(acc["body"]))
+    else:
+        ctx.inst("C14.R3", "Access#raw-index-agreement", None, "the index conversions of the list and string arms were not both found", H.loc(acc["body"]))
     # record access / dot access / input reference: get(key).copied().unwrap_or(Null)
     for label, arm_ in (("Access#Record", sub.get("Record")), ("DotAccess", arms.get("DotAccess")), ("InputReference", arms.get("InputReference"))):
         if arm_ is None:
@@ -247,3 +257,35 @@ def run(ctx):
                          and not re.search(r"::(as_\w+|reify|insert_\w+|borrow\w*|get_type|equals|compare|from|new|with_span|clone|index)$", c))
         verdict4 = False if bad else (True if not missing else None)  # a hand-written equivalent of the primitive cannot be judged here
         ctx.inst("C14.R4", v, verdict4, "missing key primitives: %s; look-alikes present: %s%s" % (missing, bad, "; helpers the arm delegates to: %s" % helpers[:4] if (missing and helpers) else ""), bic.loc())
+    # record and list order is data: nothing on the evaluation path puts members into a container ordered by key
+    ctx.rule("C14.R6", "spreading, keys/values/entries and every other walk over a record or list keep the members in their own order: no function reachable from the evaluator builds a key-ordered container (BTreeMap / BTreeSet / BinaryHeap) - records are insertion-ordered IndexMaps end to end", floor=1)
+    from rules import c02 as c02_
+    reach6 = sorted(n_ for n_ in cg.reachable_from(c02_.EVAL_ROOTS) if n_ in cg.fns)
+    n6 = 0
+    for n_ in reach6:
+        f6 = M.Fn(cg.fns[n_], n_)
+        hits = sorted({(f6.callee(b) or "") for b in f6.call_blocks() if re.search(r"collections::(btree|binary_heap)|BTreeMap|BTreeSet|BinaryHeap", (f6.callee(b) or "") + " " + " ".join(f6.term(b).get("argtys") or []))})
+        if hits:
+            n6 += 1
+            ctx.inst("C14.R6", "%s#ordered-container" % n_.replace(CORE, ""), False, "members pass through a key-ordered container: %s" % hits[:3], f6.loc())
+    ctx.inst("C14.R6", "evaluator#ordered-containers", n6 == 0, "%d functions reachable from the evaluator scanned; functions using BTreeMap / BTreeSet / BinaryHeap: %d" % (len(reach6), n6), None)
+
+    # hand-written replacements of a primitive: two look-alike loops that are wrong on edge cases
+    hbc = core.hir_fn(CORE + "functions::BuiltInFunction::call")
+    mm_ = H.main_match(hbc["body"], "functions::BuiltInFunction")
+    n_sep = 0
+    for a_ in (mm_["arms"] if mm_ else []):
+        names_ = [H.last(v_) for v_ in H.pat_variants(a_["pat"])]
+        for n_ in H.walk(a_["body"]):
+            if H.kind(n_) != "If":
+                continue
+            c_ = H.strip(n_["cond"])
+            if H.kind(c_) == "Unary" and c_.get("op") == "Not":
+                c2 = H.strip(c_["e"])
+                if H.kind(c2) == "MethodCall" and c2["name"] == "is_empty" and H.path_local(c2["recv"]) is not None:
+                    buf = H.path_local(c2["recv"])
+                    pushes = [x for x in H.walk(n_["then"]) if H.kind(x) == "MethodCall" and x["name"] in ("push_str", "push", "extend") and H.path_local(x["recv"]) == buf]
+                    if pushes:
+                        n_sep += 1
+                        ctx.inst("C14.R4", "%s#separator-by-emptiness" % "|".join(names_), False, "a separator is added only when the text built so far is non-empty: leading empty members lose their separator (join(split(\",a\", \",\"), \",\") gives \"a\")", H.loc(n_))
+    ctx.inst("C14.R4", "separator-by-emptiness#none", n_sep == 0, "hand-written joins that decide 'not the first member' by the emptiness of the accumulator: %d" % n_sep, None)
